@@ -71,6 +71,7 @@ type lexer struct {
 	width      int        // last rune width
 	startLoc   Location   // start location
 	prev, loc  Location   // prev location of end location, end location
+	last       Token      // last token handed to the parser (parser side only)
 
 }
 
@@ -406,7 +407,18 @@ func (l *lexer) next() rune {
 }
 
 func (l *lexer) nextToken() Token {
-	return <-l.tokens
+	tok, ok := <-l.tokens
+	if !ok {
+		// The lexer has stopped (after EOF or after an error) and closed the
+		// channel. Keep answering with its last word instead of an endless
+		// stream of zero Tokens, which no parser loop recognises as the end.
+		if l.last.Kind == tokenError || l.last.Kind == EOF {
+			return l.last
+		}
+		return Token{Location: l.last.Location, Kind: EOF}
+	}
+	l.last = tok
+	return tok
 }
 
 func (l *lexer) peek() rune {
